@@ -20,6 +20,8 @@ MAP = [
     ("MinGenSet with max_multiplicity > 1", "C15", "MinGenSet with max_multiplicity>1 returned non-generating / non-minimal sets (product bound 'total' too small, unsound complement removal, truncation instead of rounding)"),
     ("MinGenSet search range and inconclusive", "C15", "MinGenSet unsolved when the optimum is len(numbers) or len(numbers)+1 ([1,2,4] with total 7 or 100); continued to a larger size after an inconclusive solver status (also C13)"),
     ("k-LeastAbsErrors objective value must use the error scaling", "C07", "with error_scaling get_objective_value() returned the unscaled error sum while the model minimises the scaled one; is_valid_solution() rejected the model's own optimum"),
+    ("do not write model-internal entries into the caller", "C18", "a non-empty optimization_options dict passed by the caller was aliased and extended (trusted_edges_for_safety, allow_empty_paths, ...) by kFlowDecompCycles, kLeastAbsErrors(+Cycles), kMinPathError(+Cycles) and through MinFlowDecompCycles"),
+    ("must not modify the caller.s max_edge_repetition_dict", "C18", "AbstractWalkModelDiGraph overwrote entries of the caller-owned max_edge_repetition_dict"),
     ("MinErrorFlow with few_flow_values_epsilon on node-weighted", "C16", "MinErrorFlow(flow_attr_origin='node', few_flow_values_epsilon>0) raised KeyError"),
 ]
 def main():
